@@ -48,13 +48,14 @@ def main():
     ctx = vlib.Ctx(a.prop, a.tier, seed)
     # whole-library halves: the scheduler-level machine (C01, C02, C04, C12) and the spin lock / sleep
     # queue (every protocol model that treats a spin-locked region as one step and the queue as a list)
-    ATTACH = {"C01": ["machine"], "C03": ["machine"], "C02": ["machine"], "C04": ["machine", "spin", "compose"], "C12": ["machine"],
-              "C05": ["spin", "compose"], "C06": ["compose"], "C07": ["spin", "compose"], "C08": ["compose"], "C09": ["spin", "compose"],
-              "C16": ["spin"]}
+    ATTACH = {"C01": ["machine"], "C03": ["machine"], "C02": ["machine"], "C04": ["machine", "spin", "compose", "sync_steps"], "C12": ["machine"],
+              "C05": ["spin", "compose", "sync_steps"], "C06": ["compose", "sync_steps"], "C07": ["spin", "compose", "sync_steps"],
+              "C08": ["compose"], "C09": ["spin", "compose", "sync_steps"],
+              "C16": ["spin"], "C20": ["machine"]}
     if not a.replay:
         for m in ATTACH.get(a.prop, []):
             am = importlib.import_module("props." + m)
-            n = (30 if m == "machine" else 40) * (10 if a.tier == "thorough" else 1)
+            n = (60 if m == "machine" else 40) * (10 if a.tier == "thorough" else 1)
             ctx.attachments = getattr(ctx, "attachments", []) + [lambda c, am=am, n=n: am.attach(c, n)]
     try:
         if a.replay:
